@@ -417,6 +417,28 @@ func genLimits(g *core.Gen, r *core.Rand, keys []keyT) []caseSpec {
 			}
 		}
 	}
+	// CLTV / CSV operands: minimal and non-minimal encodings of 1..6 bytes against a transaction that
+	// satisfies the lock (so that only the operand rules decide)
+	for _, lockOp := range []byte{0xb1, 0xb2} {
+		operands := [][]byte{{0x01}, {0x01, 0x00}, {0x00, 0x00, 0x00, 0x80, 0x00}, {0x00, 0x00, 0x00, 0x80, 0x00, 0x00},
+			{0x05, 0x00, 0x00, 0x80, 0x00}, {0x81}, {0x01, 0x00, 0x00, 0x00, 0x00}, {0xff, 0xff, 0xff, 0xff, 0x7f}, {}}
+		for _, opnd := range operands {
+			for _, fl := range []txscript.ScriptFlags{txscript.StandardVerifyFlags, consensusAll, txscript.ScriptBip16} {
+				for _, w := range []int{wBare, wP2WSH, wTapscript} {
+					sh := txShape{version: 2, lockTime: 1<<31 + 5, sequence: 7, nIn: 1, idx: 0, nOut: 1, amount: 5000}
+					if len(opnd) < 4 {
+						sh.lockTime = 3
+					}
+					var tap *tapInfo
+					if w == wTapscript {
+						tap = &tapInfo{internal: keys[0].priv.PubKey(), leafVer: 0xc0}
+					}
+					b := buildSpend(r, w, cat(pushBytes(opnd), []byte{lockOp, 0x75, 0x51}), sh, fl, tap)
+					out = append(out, caseSpec{class: "gen:limit:locktime-operand:" + wrapperName[w], sp: b.finish(nil, nil)})
+				}
+			}
+		}
+	}
 	// initial (witness) stack of 999 / 1000 / 1001 elements: P2WSH has no limit before the first
 	// opcode, tapscript checks the initial stack
 	for _, n := range []int{999, 1000, 1001, 1002} {
